@@ -42,9 +42,11 @@ def predict_observer(trace, scripts, initial, obs_addrs, remove_obs):
     obs_live = set(obs_addrs)      # remove_breakpoints_by_address drops every callback of the address
     log = []
     for pos, addr in enumerate(trace):
-        if obs_on and addr in obs_live:
-            log.append(addr)
+        # callbacks run in registration order: the scripted one first; what it does at a stop
+        # (removal by address) happens before the observer's turn for this hit
         if addr not in active:
+            if obs_on and addr in obs_live:
+                log.append(addr)
             continue
         n = hits.get(addr, 0)
         hits[addr] = n + 1
@@ -61,6 +63,8 @@ def predict_observer(trace, scripts, initial, obs_addrs, remove_obs):
                 if a in active:
                     obs_live.discard(a)
                 active.discard(a)
+        if obs_on and addr in obs_live:
+            log.append(addr)
     return log
 
 
